@@ -27,7 +27,7 @@ for pid in ALL:
     })
 man = {
     'version': 1,
-    'setup_cmd': '/venv/bin/python -c "import hypothesis" 2>/dev/null || /venv/bin/pip install --no-index --find-links /opt/veriftools/wheels hypothesis',
+    'setup_cmd': '(/venv/bin/python -c "import hypothesis" 2>/dev/null || /venv/bin/pip install --no-index --find-links /opt/veriftools/wheels hypothesis) && (PYTHONPATH=/verif/.deps /venv/bin/python -c "import atheris" 2>/dev/null || /venv/bin/pip install --no-index --quiet --find-links /opt/veriftools/wheels --target /verif/.deps atheris || true)',
     'hooks': {
         'guard': 'PYTORCH_WAVELETS_VERIF',
         'enable': 'no source hooks are needed: every observation point is a return value or a .grad; the checks import /repo\'s working tree freshly in new interpreters (PYTHONPATH=/repo, no byte-code cache)',
@@ -36,6 +36,10 @@ man = {
         'add_only': True,
     },
     'engines': [{
+        'name': 'pwv-fuzz', 'path': 'pwv/fuzz.py',
+        'serves_properties': ['C11', 'C12'],
+        'kind_free_text': 'atheris (libFuzzer) coverage-guided fuzzing of the same run_case oracles, bytes decoded into the JSON case format; two campaigns are added to the thorough tier of C11 and C12 (secondary engine; skipped if atheris cannot be installed offline)',
+    }, {
         'name': 'pwv', 'path': 'pwv/',
         'serves_properties': [c['property_id'] for c in checks],
         'kind_free_text': 'Hypothesis-driven property-based testing (structured generators, stateful machines for histories, bounded shrinking to replay files) against explicit oracles: PyWavelets, the NumPy dtcwt reference, operator extraction, autograd-vs-forward-matrix adjoint tests, metamorphic relations; sharded over fresh interpreters',
